@@ -34,10 +34,10 @@ ASSUMPTIONS = ["aliasing is demanded only of the operations the statement lists 
 V_TENSOR = ["splitUniform", "splitNonUniform", "splitEqual", "splitUnEqual", "truediv", "floordiv", "swizzle", "swap",
             "flatten", "merge", "unflatten", "flatten_flattened", "updateCoords", "updatePayloads", "deepcopy"]
 V_FIBER = ["f_splitUniform", "f_splitEqual", "f_splitNonUniform", "f_splitUnEqual", "f_swap", "f_flatten", "f_merge",
-           "f_unflatten", "f_add_fiber", "f_mul_fiber", "f_add_scalar", "f_mul_scalar", "f_copy", "f_copy_noowner",
+           "f_unflatten", "f_add_fiber", "f_mul_fiber", "f_add_fiber", "f_mul_fiber", "f_add_scalar", "f_mul_scalar", "f_copy", "f_copy_noowner",
            "f_deepcopy", "f_truediv", "f_floordiv", "f_fromFiber"]
 R_OPS = ["getPayload", "getPosition", "iterators", "coiterate", "eq", "queries", "strings", "uncompress", "dump",
-         "fiber2dict", "format", "image"]
+         "fiber2dict", "format", "image", "image"]
 
 
 @st.composite
@@ -49,6 +49,10 @@ def cases(draw):
     else:
         op = draw(st.sampled_from(R_OPS))
     d = draw(st.sampled_from([1, 2, 2, 3]))
+    if op == "image":
+        d = draw(st.sampled_from([1, 2, 3, 4, 4]))      # (the renderer has one code path per dimensionality)
+    if op in ("f_add_fiber", "f_mul_fiber"):
+        d = draw(st.sampled_from([1, 2, 2, 3, 3]))      # (with fibers below the operand + and * recurse)
     if level == "unowned":
         d = min(d, 2)
     c = {"family": fam, "level": level, "op": op,
@@ -64,8 +68,12 @@ def cases(draw):
     default = draw(st.sampled_from([0, 0, 0, 2]))
     if op in ("f_add_fiber", "f_mul_fiber", "f_add_scalar", "f_mul_scalar"):
         default = 0
-    c["spec"] = draw(st.one_of(gen.content_specs(shape, defaults=(default,), max_points=8, min_points=2, p_noise=0.8),
-                               gen.tree_specs(shape=shape, defaults=(default,))))
+    # (read-only operations are also tried on tensors whose shape is not declared but estimated: a query must
+    # not turn the estimate into an attribute)
+    auth = "any" if fam == "R" else None
+    c["spec"] = draw(st.one_of(gen.content_specs(shape, defaults=(default,), max_points=8, min_points=2, p_noise=0.8,
+                                                 auth=auth),
+                               gen.tree_specs(shape=shape, defaults=(default,), auth=auth)))
     return c
 
 
@@ -269,8 +277,11 @@ def check(case, rec):
     elif k == "copy_noowner":
         res = target.copy(preserve_owner=False)
     elif k in ("add_fiber", "mul_fiber", "add_scalar", "mul_scalar"):
+        # the left operand is a fiber at a drawn level of the tree (with fibers below it, + and * recurse),
+        # the right operand an unowned tree of the same depth
         lf, lvl = root, 0
-        while lvl < d - 1:
+        stop = d - 1 if k in ("add_scalar", "mul_scalar") or sel[2] % 3 == 0 else sel[2] % d
+        while lvl < stop:
             if not lf.payloads:
                 return
             lf = lf.payloads[sel[1] % len(lf.payloads)]
@@ -278,7 +289,19 @@ def check(case, rec):
         seen = {}
         for c_, v_ in case["other"]:
             seen[c_ % shape[-1]] = v_
-        g = Fiber(sorted(seen), [seen[c_] for c_ in sorted(seen)], shape=shape[-1])
+        if lvl == d - 1:
+            g = Fiber(sorted(seen), [seen[c_] for c_ in sorted(seen)], shape=shape[-1])
+        else:
+            # the tree below lf, shifted by one coordinate at the top (so that both sides have coordinates
+            # of their own) and with other leaf values
+            def other_tree(tr, dd, top=True):
+                out = []
+                for c_, ch in tr:
+                    c2 = (c_ + 1) % shape[d - dd] if top else c_
+                    out.append([c2, (ch + 1 if ch + 1 != 0 else 2) if dd == 1 else other_tree(ch, dd - 1, False)])
+                return sorted(out, key=lambda x: x[0])
+            g = build.nested_fiber(other_tree(observe.tree_of(lf), d - lvl), d - lvl, shape[lvl:], default)
+            rec.cls("arith-on-interior-fiber")
         gs = State(g)
         if k == "add_fiber":
             res = lf + g
@@ -439,7 +462,7 @@ def run_readonly(case, X, t, root, spec, rec):
             f.getFiber(*pt[:d - 1])
         f.getFiber()
     elif op == "image":
-        if sel[3] % 3 or t is None:
+        if (sel[3] % 3 and d < 4) or t is None:
             return          # images are slow: rendered in a third of these cases (tensors, as the statement says)
         X = t
         for style in ("tree", "uncompressed", "tree+uncompressed"):
